@@ -53,6 +53,14 @@
     error body, whatever class the validators raise for it ((b) only decides the classes it is told).
     Which batches are accepted at all is C06.  Replay: the same signature as a real Protocol, the same
     batch as real Arrow bytes, posted to the real unary and init routes.
+(i) the client-controlled refusals of (f) (400 / 413) after ANY earlier request on the same worker
+    thread: every per-request context variable a middleware reads (AST scan) starts at any value an
+    earlier request can leave (a producer turn that compressed into its own stream leaves
+    `_current_body_precompressed` True), x what the request says about response codings; the whole
+    middleware stack runs as Falcon runs it (process_request ..., the app's error handling, every
+    process_response); the body must be a decodable Arrow error stream once the content coding the
+    response declares is undone.  Replay: a real producer stream iterated by the library's client,
+    then the refusal, on one thread through make_sync_client.
 """
 
 from __future__ import annotations
@@ -95,7 +103,8 @@ BOUNDS = (
     "content type = exact Arrow type | absent | any string len<=%d; method = a unary name | a stream name | any string len<=%d; route in {unary, init, exchange}; "
     "failing validation step in {read, name, version gate (real), deserialize, signature, params} x 9-10 exception classes x 5 protocol-version situations; "
     "request decoding (g): {unary, init} x {open, read, drain} x {OSError, StopIteration, pa.ArrowException subclasses}; max-bytes: path = prefix + '/' + any string len<=%d, ints 0..%d; "
-    "parameter batches (h): {unary, init} x 0..%d declared int parameters (optional / defaulted or not) x 0..%d request columns (name among the declared ones or an undeclared one, type equal or not, nullable flag)" % (_LM, _LM, pick(8, 10), pick(999, 99999), pick(2, 3), 3)
+    "parameter batches (h): {unary, init} x 0..%d declared int parameters (optional / defaulted or not) x 0..%d request columns (name among the declared ones or an undeclared one, type equal or not, nullable flag); "
+    "(i): 400/413 middleware refusals x 3 routes x 5 Accept-Encoding situations x 4 thread histories" % (_LM, _LM, pick(8, 10), pick(999, 99999), pick(2, 3), 3)
 )
 OUTSIDE = (
     "Falcon routing and Falcon's own error responses (405, 404 sink); which exception class pyarrow raises for which malformed bytes (the classes are a symbolic dimension: pyarrow's whole ArrowException hierarchy except ArrowMemoryError/ArrowCancelled, which say nothing about the bytes); "
@@ -110,6 +119,7 @@ ASSUMPTIONS = [
     "which class these raise for which bytes/values is not decided here (C05/C06; (g) decides it for pyarrow's three decoder classes through the real _read_request); that whatever they raise is mapped per the table IS; the protocol-version gate is the real one",
     "(h): _read_request := hands the symbolic batch on as the real one does (schema into the context variable, kwargs keyed by column name, values non-null ints); pa.Schema / pa.Field := duck-typed field lists, Arrow types := opaque tokens with ==; "
     "the three validators and the dispatchers' except clauses are the real ones; a server attribute read after request validation = the request was accepted (not judged)",
+    "(i): an earlier request on the thread := each context variable the middlewares read holds any value of a stated domain (_current_body_precompressed in {False, True}, _current_access_sink in {None, []}); Falcon's cycle := process_request in order, the app's real _handle_exception, every process_response in reverse order (independent middleware)",
     "classes that MUST be 400: read {ArrowInvalid, StopIteration, RpcError, VersionError, request-framing marker}, deserialize {ArrowInvalid, TypeError, KeyError, ValueError}, signature/params {TypeError} — from the property text and the steps' documented Raises:, not from the dispatcher's except clause",
     "_set_error_response in (b)/(e)/(g) := recorder that still calls the real _set_http_status (the real one serialises through pyarrow; it is exercised un-stubbed in (d)); a response built any other way must carry a really decodable Arrow error stream",
     "server.methods := linear-scan mapping with dict semantics (a symbolic key in a real dict realises)",
@@ -1782,3 +1792,201 @@ def _h_route(route: int, n: int, ddef, dnull, m: int, req_fields: list) -> bool:
 
 
 ENCODED.extend([_wire_mod._validate_call_signature, _wire_mod._deserialize_params, _wire_mod._validate_params])
+
+
+# ---------------------------------------------------------------------------
+# (i) refusals raised by the middleware AFTER any earlier request on the same worker thread
+# ---------------------------------------------------------------------------
+# A WSGI worker thread serves one request after another in ONE context: whatever an earlier
+# request left in the per-request context variables the middlewares READ is state of the next
+# request.  That history is a symbolic dimension here: every such variable (AST scan of the live
+# _middleware.py; a read variable without a value domain below is a harness error) starts at any
+# value an earlier request can leave.  The app's whole middleware stack then runs as Falcon runs it
+# (process_request in order until one refuses, the app's own error handling, every
+# process_response in reverse order) on a real request, and the 400 / 413 the client receives must
+# be a decodable Arrow IPC error stream once the content coding the response declares is undone.
+
+from vgi_rpc._codec import Encoding as _Encoding  # noqa: E402
+from vgi_rpc._codec import decompress as _codec_decompress  # noqa: E402
+from vgi_rpc.rpc import _common as _rpc_common  # noqa: E402
+from vgi_rpc.rpc import ProducerState  # noqa: E402
+
+
+def _ctxvars_read_by_middleware() -> list[str]:
+    """Names of the context variables some middleware method reads with `.get()` (live AST)."""
+    tree = ast.parse(inspect.getsource(_middleware))
+    out: set[str] = set()
+    for n in ast.walk(tree):
+        if isinstance(n, ast.Call) and isinstance(n.func, ast.Attribute) and n.func.attr == "get" and isinstance(n.func.value, ast.Name):
+            import contextvars
+
+            if isinstance(getattr(_middleware, n.func.value.id, None), contextvars.ContextVar):
+                out.add(n.func.value.id)
+    return sorted(out)
+
+
+# what an earlier request on the thread can leave in each (the default first)
+_HIST_DOMAIN = {
+    "_current_body_precompressed": [False, True],  # True: a producer turn compressed into its own IPC stream
+    "_current_access_sink": [None, []],  # the access-log middleware restores it by token; [] when its reset never ran
+}
+_HIST_VARS = _ctxvars_read_by_middleware()
+_hist_unknown = [v for v in _HIST_VARS if v not in _HIST_DOMAIN]
+if _hist_unknown or "_current_body_precompressed" not in _HIST_VARS:
+    raise RuntimeError(f"context variables read by _middleware.py without a history domain here: {_hist_unknown} (read: {_HIST_VARS}); harness out of date")
+_HIST_COMBOS = [(i, j) for i in range(len(_HIST_DOMAIN[_HIST_VARS[0]])) for j in range(len(_HIST_DOMAIN[_HIST_VARS[1]]))] if len(_HIST_VARS) == 2 else None
+if _HIST_COMBOS is None:
+    raise RuntimeError(f"(i) is written for the two context variables the middlewares read today, found {_HIST_VARS}; harness out of date")
+_NHIST = len(_HIST_COMBOS)
+# what the client says about response codings: nothing / the standard header / VGI's own header
+_ACCEPTS = [{}, {"Accept-Encoding": "zstd"}, {"Accept-Encoding": "gzip"}, {"X-VGI-Accept-Encoding": "zstd"}, {"X-VGI-Accept-Encoding": "gzip", "Accept-Encoding": "gzip"}]
+_NACC = len(_ACCEPTS)
+# the refusals that are client-controlled and must carry an Arrow body (401/415 exempt, 503 not client-controlled)
+_I_SC = [k for k, s in enumerate(_SCENARIOS) if _WANT_STATUS[s[1]] in (400, 413)]
+_NISC = len(_I_SC)
+_SIG_HISTORY = "C15:middleware-error:body-undecodable-after-earlier-request"
+
+
+def _declared_body(headers: dict, data: bytes) -> bytes | None:
+    """The body with the content coding the response itself declares undone (what an HTTP client /
+    the VGI client hands on); None when that fails."""
+    h = {str(k).lower(): v for k, v in headers.items()}
+    enc = (h.get("content-encoding") or h.get("x-vgi-content-encoding") or "").strip().lower()
+    if not enc or enc == "identity":
+        return data
+    try:
+        return _codec_decompress(_Encoding(enc), data)
+    except Exception:  # noqa: BLE001
+        return None
+
+
+def _falcon_cycle(app, req, resp):  # noqa: ANN001, ANN201
+    """Falcon's request cycle around a refusing middleware stack (independent middleware: every
+    process_response runs, in reverse order, whether or not a process_request refused)."""
+    stack = list(app._unprepared_middleware)
+    refused = False
+    try:
+        for mw in stack:
+            pr = getattr(mw, "process_request", None)
+            if pr is not None:
+                pr(req, resp)
+    except falcon.HTTPError as e:
+        refused = True
+        if not app._handle_exception(req, resp, e, {}):
+            raise HarnessModelError("the app did not handle a falcon.HTTPError") from e
+    for mw in reversed(stack):
+        ps = getattr(mw, "process_response", None)
+        if ps is not None:
+            ps(req, resp, None, not refused)
+    return refused
+
+
+def _history_outcome(k: int, ri: int, acc: int, hist: int) -> str | None:
+    si = _I_SC[k]
+    _mwn, want_cls, hdrs, body, ai, mode = _SCENARIOS[si]
+    _AUTH_MODE["mode"] = mode or "reject"
+    toks = []
+    for name, idx in zip(_HIST_VARS, _HIST_COMBOS[hist], strict=True):
+        v = _HIST_DOMAIN[name][idx]
+        toks.append((getattr(_rpc_common, name), getattr(_rpc_common, name).set(list(v) if isinstance(v, list) else v)))
+    try:
+        req = falcon.Request(_ft.create_environ(method="POST", path=_ROUTES[ri], headers={**_ARROW_HDR, **hdrs, **_ACCEPTS[acc]}, body=body))
+        resp = falcon.Response()
+        if not _falcon_cycle(_APPS[ai], req, resp):
+            raise HarnessModelError(f"scenario {si} was not refused by the middleware stack")
+        status = resp.status_code
+        if status != _WANT_STATUS[want_cls]:
+            return f"{want_cls} scenario on POST {_ROUTES[ri]}: HTTP {status}, the table says {_WANT_STATUS[want_cls]}"
+        plain = _declared_body(dict(resp.headers), resp.render_body() or b"")
+        if (resp.content_type or "") != _ARROW_CONTENT_TYPE or plain is None or not _arrow_exception_body(plain):
+            return f"HTTP {status} on POST {_ROUTES[ri]} ({want_cls}, request headers {_ACCEPTS[acc]}) after an earlier request left {dict(zip(_HIST_VARS, [_HIST_DOMAIN[n][x] for n, x in zip(_HIST_VARS, _HIST_COMBOS[hist], strict=True)], strict=True))}: the body is not a decodable Arrow IPC error stream under the content coding the response declares ({ {k2: v2 for k2, v2 in resp.headers.items() if 'encoding' in k2.lower()} })"
+        return None
+    finally:
+        for var, tok in reversed(toks):
+            var.reset(tok)
+
+
+@dataclasses.dataclass
+class _Gen(ProducerState):
+    count: int = 0
+    current: int = 0
+
+    def produce(self, out, ctx):  # noqa: ANN001, ANN201
+        if self.current >= self.count:
+            out.finish()
+            return
+        out.emit_pydict({"i": [self.current]})
+        self.current += 1
+
+
+class _PSvc(Protocol):
+    def add(self, a: int) -> int: ...
+
+    def fed(self, count: int) -> Stream[ProducerState]: ...
+
+
+class _PImpl:
+    def add(self, a: int) -> int:
+        return a
+
+    def fed(self, count: int) -> Stream[_Gen]:
+        return Stream(output_schema=pa.schema([pa.field("i", pa.int64())]), state=_Gen(count=count))
+
+
+_RCAP = 4096
+
+
+def _replay_history(a: dict) -> str | None:
+    """Real histories on one thread through make_sync_client: (nothing | a producer stream iterated
+    by the library's own client, which negotiates response compression) and then the
+    counterexample's refusal (its route first) with the counterexample's Accept headers: the 400 /
+    413 must decode as an Arrow error stream once the declared content coding is undone."""
+    from vgi_rpc.http import http_connect
+
+    _mwn, want_cls, hdrs, _body, _ai, _mode = _SCENARIOS[_I_SC[a["k"]]]
+    body = {0: b"x" * (_RCAP + 36), 2: b"not a coded body", 3: gzip.compress(b"\x00" * (_RCAP * 40))}.get(_I_SC[a["k"]])
+    if body is None:
+        return None
+    for history in (True, False):
+        with warnings.catch_warnings():
+            warnings.simplefilter("ignore")
+            client = make_sync_client(RpcServer(_PSvc, _PImpl()), token_key=b"k" * 32, max_request_bytes=_RCAP)
+        try:
+            if history:
+                try:
+                    with http_connect(_PSvc, client=client) as proxy:
+                        rows = [b.batch.column("i")[0].as_py() for b in proxy.fed(count=4)]
+                except Exception:  # noqa: BLE001
+                    continue  # the history itself could not be produced: no verdict from it
+                if rows != [0, 1, 2, 3]:
+                    continue
+            for ri in [a["ri"]] + [r for r in range(3) if r != a["ri"]]:
+                r = client._client.simulate_post(_ROUTES[ri], body=body, headers={**_ARROW_HDR, **hdrs, **_ACCEPTS[a["acc"]]})
+                if r.status_code not in (400, 413):
+                    continue
+                plain = _declared_body(dict(r.headers), r.content)
+                if r.headers.get("content-type") != _ARROW_CONTENT_TYPE or plain is None or not _arrow_exception_body(plain):
+                    enc = {k: v for k, v in r.headers.items() if "encoding" in k.lower()}
+                    return (f"{'after a producer stream iterated with response compression, ' if history else ''}POST {_ROUTES[ri]} ({want_cls} scenario, {_ACCEPTS[a['acc']]}) on the same thread: "
+                            f"HTTP {r.status_code} {enc} with a body that is not a decodable Arrow IPC error stream under that coding: {r.content[:40]!r}")
+        finally:
+            client.close()
+    return None
+
+
+@cond(q=300, t=600, encoded=[_middleware._CompressionMiddleware.process_request, _middleware._CompressionMiddleware.process_response, _middleware._MaxRequestBytesMiddleware.process_request],
+      stubs=["history := every context variable a middleware reads starts at any value of its domain (_HIST_DOMAIN)", "Falcon's request cycle := process_request in order, the app's real error handling, every process_response in reverse order"],
+      bound="%d client-controlled refusal scenarios (400/413) x 3 RPC routes x %d Accept-Encoding situations x %d histories (%s); real falcon Request/Response, real middleware stack, real app error handling" % (_NISC, _NACC, _NHIST, ", ".join(_HIST_VARS)),
+      replay=_replay_history, signature=lambda a, c: _SIG_HISTORY)
+def refusal_body_decodable_after_any_earlier_request(k: int, ri: int, acc: int, hist: int) -> bool:
+    """
+    pre: 0 <= k < _NISC and 0 <= ri <= 2 and 0 <= acc < _NACC and 0 <= hist < _NHIST
+    post: _
+    """
+    for k_ in range(_NISC):
+        for r_ in range(3):
+            for a_ in range(_NACC):
+                for h_ in range(_NHIST):
+                    if k == k_ and ri == r_ and acc == a_ and hist == h_:
+                        return _history_outcome(k_, r_, a_, h_) is None
+    return False
